@@ -1713,6 +1713,9 @@ class Message_Router( Object ):
                         r.service= r.get( 'service', 0 ) | 0x80
                         if not r.get( 'status' ):
                             r.status= 0x08		# Service not supported
+                        if r.service == 0xD2 and r.status < 0x10:
+                            # As for the same request sent alone (see Connection_Manager.request)
+                            r.status_ext = dotdict( size=1, data=[0x0000] )
                         r.input	= bytearray( Object.produce( r ))
                 data.status	= 0x00
             else:
@@ -2372,6 +2375,11 @@ class Connection_Manager( Object ):
                 req.service	= req.get( 'service', 0 ) | 0x80
                 if not req.get( 'status' ):
                     req.status	= 0x08		# Service not supported
+                if req.service == 0xD2 and req.status < 0x10:
+                    # An error reply to service 0x52 w/o extended status would be taken for the
+                    # failure of an Unconnected Send (see parser.unconnected_send); as a C*Logix
+                    # does, always supply an extended status word with it.
+                    req.status_ext = dotdict( size=1, data=[0x0000] )
                 req.input	= bytearray( Object.produce( req ))
             data.request	= req
 
